@@ -2,11 +2,89 @@
 import vlib
 from props import exact_common as ec
 
-PIPES = {"segseg": ec.pipe("segseg")}
+
+def big_pipe(ctx, verdict, cases, name="segsegx"):
+    """Large-grid tier: the driver runs each pair in all 8 argument symmetries; Apalache decides every row with
+    ExactGeom!SegSegOK on exact integers (class, exact endpoints, crossing point within the forward-error bound)."""
+    drv = [dict(segs=[c["seg"]]) for c in cases]
+    obs = list(vlib.run_driver(ctx, "segseglist", drv, for_tlc=False))
+    exprs, sigs = [], []
+    for c, o in zip(cases, obs):
+        parts = []
+        if o["ev"] != "ok":
+            parts = ["FALSE"]
+        rows = o.get("rows", [])
+        if ctx.quick:                  # 4 of the 8 symmetries (identity, reversed first, swapped, swapped + reversed)
+            rows = [rows[j] for j in (0, 1, 4, 7)] if len(rows) == 8 else rows
+        for row in rows:
+            if row["ev"] != "ok" or any(v["t"] != "num" for p in row["p"] for v in p):
+                parts.append("FALSE")
+                continue
+            sin = [v for p in row["x"] for v in p]
+            sout = [v["x"] for p in row["p"] for v in p]
+            i_in, i_out, k = ec.obs_ints(sin, sout)
+            pts = [ec.tla_pt(i_in[2 * j:2 * j + 2]) for j in range(4)]
+            ps = "<<" + ", ".join(ec.tla_pt(i_out[2 * j:2 * j + 2]) for j in range(len(i_out) // 2)) + ">>"
+            sc = max(1, max(abs(v) for v in i_in))
+            parts.append('SegSegOK(%s, %s, %s, %s, "%s", %s, %d)' % (pts[0], pts[1], pts[2], pts[3], row["t"], ps, sc))
+            nr_ok = row["nr"] == (row["t"] != "none")
+            if not nr_ok:
+                # the non-robust strategy must agree on "intersect at all" for exactly representable input:
+                # stated against the spec's class so that a wrong robust class cannot mask it
+                parts.append('((SegSegClass(%s, %s, %s, %s) # "none") = %s)' % (pts[0], pts[1], pts[2], pts[3],
+                                                                                "TRUE" if row["nr"] else "FALSE"))
+        exprs.append(" /\\ ".join(parts) if parts else "TRUE")
+        sigs.append("segseg|big|" + c["fam"])
+    return ec.apalache_obs(ctx, verdict, "SegSegX", exprs, cases, sigs, name, per_module=12 if ctx.quick else 40)
+
+
+def crossing_error(seg, row):
+    """Prioritisation only (never a verdict): how far a reported single point is from the crossing of the two
+    lines, relative to the segment size, computed with exact fractions. Rows that look worst are sent to the
+    model checker first; the verdict is Apalache's evaluation of SegSegOK."""
+    from fractions import Fraction as F
+    if row.get("t") != "point" or len(row.get("p", [])) != 1 or any(v["t"] != "num" for v in row["p"][0]):
+        return 0.0
+    a, b, c, d = [[ec.parse_exact(v) for v in p] for p in row["x"]]
+    den = (b[0] - a[0]) * (d[1] - c[1]) - (b[1] - a[1]) * (d[0] - c[0])
+    if den == 0:
+        return 0.0
+    rn = (a[1] - c[1]) * (d[0] - c[0]) - (a[0] - c[0]) * (d[1] - c[1])
+    x = a[0] + rn * (b[0] - a[0]) / den
+    y = a[1] + rn * (b[1] - a[1]) / den
+    gx, gy = [ec.parse_exact(v["x"]) for v in row["p"][0]]
+    size = max(abs(v) for p in (a, b, c, d) for v in p) or 1
+    return float(max(abs(gx - x), abs(gy - y)) / size)
+
+
+def screened(ctx, n_pool, n_keep):
+    """A large pool of crossing pairs is run through the real code; the n_keep with the largest apparent error
+    are kept for the model checker (suspicious-first sampling)."""
+    pool = [c for c in ec.seg_pairs(ctx.seed + 77, n_pool, grids=(1 << 16, 1 << 20)) if c["fam"] in
+            ("axis-cross", "near-parallel", "random", "tee") and c["seg"][2] != c["seg"][3]]
+    obs = list(vlib.run_driver(ctx, "segseglist", [dict(segs=[c["seg"]]) for c in pool], for_tlc=False))
+    scored = []
+    for c, o in zip(pool, obs):
+        e = max([crossing_error(c["seg"], row) for row in o.get("rows", [])] or [0.0])
+        scored.append((e, c))
+    scored.sort(key=lambda t: -t[0])
+    ctx.coverage_extra["screened_pool"] = dict(pool=len(pool), kept=n_keep, worst_apparent_relative_error=scored[0][0] if scored else 0)
+    return [dict(c, fam=c["fam"] + "/screened") for _, c in scored[:n_keep]]
+
+
+PIPES = {"segseg": ec.pipe("segseg"), "segsegx": big_pipe}
 
 
 def run(ctx, verdict):
     ec.family(ctx, verdict, "segseg")
+    cases = [c for c in ec.seg_pairs(ctx.seed, 132 if ctx.quick else 3000) if c["seg"][2] != c["seg"][3]]
+    cases += screened(ctx, 6000 if ctx.quick else 60000, 24 if ctx.quick else 200)
+    vlib.note_cases(ctx, cases)
+    big_pipe(ctx, verdict, cases)
+    ctx.coverage_extra["big_tier"] = dict(pairs=len(cases), rows=8 * len(cases), grids=[1 << 10, 1 << 16, 1 << 20],
+                                          checker="Apalache on ExactGeom!SegSegOK")
     ctx.assumptions += ["every ordered pair of non-degenerate segments of the N x N grid (all 8 argument symmetries "
-                        "are members of the enumeration); crossing points compared in 2^-10 fixed point (gross-error "
-                        "tier), shared endpoints and overlap endpoints compared exactly"]
+                        "are members of the enumeration); crossing points compared in 2^-10 fixed point in the TLC tier",
+                        "large-grid tier: seeded biased pairs (touching, T, collinear overlap/touch/apart, parallel, "
+                        "axis-parallel crossings, near-parallel) on grids up to 2^20, crossing point within "
+                        "2^-30*scale + 2^-45*l1*l2*(l1+l2)/|den| of the exact rational point"]
